@@ -7,8 +7,8 @@ CLAUSE_PROP = {"Registry": "C06", "Missing": "C06", "NotSubscribed": "C06", "Twi
                "Unstable": "C08", "TwoThreads": "C13", "IsAlive": "C13", "StopLeft": "C13", "StartFailed": "C13", "Hang": "C13",
                "NoProgress": "C13", "Error": "C13"}
 PROFILES = {
-  "C06": {"weights": [40, 40, 6, 4, 3, 3], "min_ops": 5, "max_ops": 12},
-  "C08": {"weights": [15, 70, 5, 3, 1, 2], "min_ops": 6, "max_ops": 14, "prios": [1, 1, 1, 2, 2, 3], "max_pub2": 4},
+  "C06": {"weights": [40, 40, 6, 4, 3, 3], "min_ops": 5, "max_ops": 12, "resub": 0.2},
+  "C08": {"weights": [15, 70, 5, 3, 1, 2], "min_ops": 6, "max_ops": 14, "prios": [1, 1, 1, 2, 2, 3], "max_pub2": 4, "long_lived": 0.3},
   "C13": {"weights": [15, 20, 25, 20, 8, 12], "min_ops": 5, "max_ops": 12, "bad": 6},
 }
 
@@ -54,7 +54,7 @@ def model_check(run, tier):
 
 
 def fabric_check(prop, nq, nt):
-  def check(tier):
+  def check(tier, finish=True):
     run = common.Run(prop, tier, "model_checking")
     run.assumptions += ASSUME_B + ["start/stop/clear/subscribe come from one driver thread; a second thread publishes concurrently",
                                    "the order of two overlapping publish calls is not prescribed (only publish-returned-before-publish-called)"]
@@ -87,10 +87,68 @@ def fabric_check(prop, nq, nt):
       run.add(rejections_attributed_to_other_properties=others)
     for tid, r in results[:2]:
       run.sample({"scenario": r["scen"], "policy": r["policy"], "events": r["events"][:16]})
-    return run.finish()
+    return run.finish() if finish else run
   return check
+
+
+def _halt_gen(rng):
+  """active objects + fabric stop / restart (C13: stop() halts every active object at its next wake-up; a later start()
+  resumes delivery for subsequent subscriptions and publications)"""
+  names = ["a1", "a2", "a3"][:rng.randint(1, 3)]
+  aos = [{"name": nm, "spied": rng.random() < 0.5, "instrumented": True, "handler_ops": {}} for nm in names]
+  ops = [["start", nm] for nm in names]
+  subs = [nm for nm in names if rng.random() < 0.7]
+  ops += [["sub", nm, "A", rng.choice(["fifo", "lifo"])] for nm in subs]
+  ops.append(["settle"])
+  for _ in range(rng.randint(0, 2)):
+    ops.append(["pub", rng.choice(names), "A", 1])
+  if rng.random() < 0.5:
+    # a slow handler: the object is in the middle of a step (or has events waiting) when the fabric stops
+    nm = rng.choice(names)
+    [a for a in aos if a["name"] == nm][0]["handler_ops"]["C"] = [["sleep", 1]]
+    ops += [["post", nm, "fifo", "C"], ["post", nm, "fifo", "B"]]
+  else:
+    ops.append(["settle"])
+  ops.append(["fstop"])
+  woken = [nm for nm in names if rng.random() < 0.8]
+  for nm in woken:
+    ops.append(["post", nm, rng.choice(["fifo", "lifo"]), "B"])      # the wake-up: the object sees the fabric is down and ends
+  ops.append(["settle"])
+  drivers = {"d1": ops}
+  return {"cap": 30, "aos": aos, "drivers": drivers}
+
+
+def _halt_work(args):
+  from harness import sysdrive
+  seed, lo, hi = args
+  out = []
+  for tid in range(lo, hi):
+    rng = random.Random((seed << 20) ^ (tid * 2654435761 % (1 << 32)))
+    cfg = _halt_gen(rng)
+    pol = dsched.RandomPolicy(rng, stick=rng.choice([0.0, 0.5, 0.8])) if tid % 2 else dsched.PCTPolicy(rng, 3, 120)
+    pol.time_limit = 10
+    r = sysdrive.run_one(cfg, dsched.FairSuffix(pol, 1500, time_limit=10), 4000)
+    r["cfg"] = cfg
+    out.append((tid, r))
+  return out
+
+
+def c13(tier):
+  rc_run = _c13_fabric(tier, finish=False)
+  run = rc_run
+  from harness import syscheck
+  n = 400 if tier == "quick" else 8000
+  chunk = max(1, (n + 63) // 64)
+  with mp.get_context("fork").Pool(16) as pool:
+    results = [x for part in pool.map(_halt_work, [(common.seed(), lo, min(n, lo + chunk)) for lo in range(0, n, chunk)]) for x in part]
+  v, t = syscheck.validate(results, 30)
+  others = syscheck.file_violations(run, "C13", results, v)
+  run.add(active_object_halt_executions=len(results), system_level_states=t.distinct)
+  if others:
+    run.add(system_rejections_attributed_to_other_properties=others)
+  return run.finish()
 
 
 c06 = fabric_check("C06", 1500, 30000)
 c08 = fabric_check("C08", 1500, 30000)
-c13 = fabric_check("C13", 1500, 30000)
+_c13_fabric = fabric_check("C13", 1500, 30000)
